@@ -179,7 +179,15 @@ fn execute<E: p3_field::Field>(sc: &Scenario<E>, fault: &str) -> Option<String> 
             return Some(format!("set_private_data_unknown:Err({})", variant(&e)));
         }
     }
+    // a withheld public input is "determined anyway" only when its slot is fixed before execution
+    // starts: by a constant of the circuit or by a private input that was provided
+    let pr: std::collections::BTreeSet<u32> = sc.circuit.private_input_rows.iter().map(|w| w.0).collect();
+    let publics_fixed_before_run = sc.circuit.public_rows.iter().all(|w| cs.contains(&w.0) || pr.contains(&w.0));
     Some(match runner.run() {
+        Ok(_) if fault == "no-public" && !publics_fixed_before_run => {
+            // success although a public input that only the computation could have filled in was never set
+            "run:Ok(public-inputs-never-set,filled-in-by-the-computation)".to_string()
+        }
         Ok(t) => {
             // digest of the produced witness: a faulted run that succeeds must at least have
             // produced exactly the unfaulted witness (the withheld input was redundant)
